@@ -21,6 +21,7 @@ type fnArgs struct {
 	HCap  int   `json:"hcap"`
 	CCap  int   `json:"ccap"`
 	Dst   int   `json:"dst"` // length of the dst slice handed to IP?Prefix / ContainsIP?
+	Cut   int   `json:"cut"` // GetMsgSig: parse buf[:cut] first, then resume on the whole buffer (0 = one-shot)
 }
 
 var uriErrNames = map[sipsp.ErrorURI]string{
@@ -212,7 +213,13 @@ var fnTable = map[string]func(a *fnArgs, o *ob){
 		var m sipsp.PSIPMsg
 		buf := bytesOf(a.S)
 		m.Init(nil, mkHdrs(a.HCap), mkContacts(a.CCap))
-		n, e := sipsp.ParseSIPMsg(buf, 0, &m, uint8(a.Flags))
+		n, e := 0, sipsp.ErrHdrMoreBytes
+		if a.Cut > 0 && a.Cut < len(buf) {
+			n, e = sipsp.ParseSIPMsg(buf[:a.Cut:a.Cut], 0, &m, uint8(a.Flags))
+		}
+		if e == sipsp.ErrHdrMoreBytes {
+			n, e = sipsp.ParseSIPMsg(buf, n, &m, uint8(a.Flags))
+		}
 		o.str("perr", errName(e))
 		o.int("poffs", n)
 		if e != 0 {
